@@ -555,6 +555,8 @@ const C_STRUCT: &[Opt] = &[
     o("export_to", "export_to = \"dir/\"", "valid"),
     o("concrete", "concrete(T = i32)", "valid"),
     o("bound", "bound = \"T: Clone\"", "valid"),
+    o("bound", "bound = \"T: TS\"", "valid"),
+    o("bound", "bound = \"T: TS, U: TS\"", "valid"),
     o("optional_fields", "optional_fields", "valid"),
     o("optional_fields", "optional_fields = nullable", "valid"),
     // invalid values / missing values
@@ -858,13 +860,21 @@ fn total(rep: &mut Report) {
                 // parameter, no `optional` on a non-Option (designed IsOption diagnostic)
                 if let Some(dump) = dump.as_mut() {
                     let max = if thorough() { 2 } else { 1 };
-                    // `bound` replaces the generated bounds altogether: the user's responsibility
+                    // `bound` replaces the generated bounds altogether (the user's responsibility):
+                    // only the two spellings that give every type parameter of the item its `TS` bound
                     let names_param = |p: &Placed| matches!(p.opt.key, "concrete");
-                    if placed.iter().any(|p| p.opt.key == "bound") {
+                    let two_params = src.contains("<T, U>");
+                    let one_param = !two_params && (src.contains("<T>") || src.contains("<T:") || src.contains(", T>") || src.contains("<T ="));
+                    if placed.iter().any(|p| {
+                        p.opt.key == "bound"
+                            && !((p.opt.text == "bound = \"T: TS\"" && one_param) || (p.opt.text == "bound = \"T: TS, U: TS\"" && two_params))
+                    }) {
                         return;
                     }
                     let generic_t = src.contains("<T") || src.contains(", T");
-                    let optional_ok = !placed.iter().any(|p| p.opt.key == "optional" || p.opt.key == "optional_fields") || src.contains("Option<");
+                    // `optional` on a non-Option field is the designed IsOption diagnostic;
+                    // `optional_fields` simply leaves such fields alone
+                    let optional_ok = !placed.iter().any(|p| p.opt.key == "optional") || src.contains("Option<");
                     if spelling == "ts"
                         && placed.len() <= max
                         && (placed.len() <= 1 || placed.iter().all(|p| p.opt.form == "valid"))
